@@ -23,7 +23,7 @@ import warnings
 from fractions import Fraction
 
 from . import common
-from .common import zlit, listlit, qlit
+from .common import zlit, listlit
 
 POL = ['target_pch_out_db', 'target_psd_out_mWperGHz', 'target_out_mWperSlotWidth']
 PDEG = ['per_degree_pch_out_db', 'per_degree_psd_out_mWperGHz', 'per_degree_psd_out_mWperSlotWidth']
@@ -33,6 +33,12 @@ TOL = 1e-9          # dB
 C_BAND = (191.3e12, 196.1e12)
 L_BAND = (186.3e12, 190.1e12)
 RESTR = {'preamp_variety_list': [], 'booster_variety_list': []}
+
+
+def qlit(x):
+    """exact value of a float as  fq mantissa exponent  (= mantissa · 2^exponent : Q), see Run/C06.v"""
+    n, d = float(x).as_integer_ratio()
+    return f'(fq {zlit(n)} {zlit(-(d.bit_length() - 1))})'
 
 
 def db(x):
@@ -812,7 +818,7 @@ def run(ctx):
             c = json.load(open(f))
             c['_corpus'] = os.path.basename(f)
             cases.append(c)
-        na, nl, nbig = ctx.scale(350, 6000), ctx.scale(300, 5000), ctx.scale(6, 80)
+        na, nl, nbig = ctx.scale(600, 8000), ctx.scale(500, 6000), ctx.scale(8, 100)
         cases += [gen_case_A(rng) for _ in range(na)] + [gen_case_L(rng) for _ in range(nl)]
         cases += [gen_case_A(rng, big=True) for _ in range(nbig)] + [gen_case_L(rng, big=True) for _ in range(nbig)]
     terms, meta = [], []
